@@ -78,7 +78,7 @@ def gen_name(rng, cfgname):
         el = rng.choice(atoms)
         cnt = rng.choice([1, 1, 1, 2, 2, 3, 4, 6, 10, 12])
         toks.append((el, cnt))
-    label = rng.choice(["", "", "", "o", "p", "m"]) if cfgname != "upper" else ""
+    label = rng.choice(["", "", "", "", "o", "p", "m", "c-", "l-"]) if cfgname != "upper" else ""   # isomer labels contain a dash
     body = label + "".join(f"{e}{c if c > 1 else ''}" for e, c in toks)
     charge = rng.choice([0, 0, 0, 1, 1, -1, 2, 4, -2])
     ice = rng.random() < 0.25
@@ -91,9 +91,9 @@ def gen_name(rng, cfgname):
     if ice:
         bounds.add(len(cfg["surface"]))
     bounds.add(pos)
+    spans = [(pos, pos + len(label))] if label else []
     pos += len(label)
     bounds.add(pos)
-    spans = []
     for e, c in toks:
         spans.append((pos, pos + len(e)))
         pos += len(e)
